@@ -288,6 +288,12 @@ fn edge_cases() -> Vec<Case> {
     v.push(cf("unknown mode", &CONFIG.replace("with-loader-ts-5.0", "nonsense")));
     v.push(cf("scalarTypes of the wrong shape", &CONFIG.replace("Date: string", "Date: [1, 2]")));
     v.push(cf("scalarTypes send/receive form", &CONFIG.replace("Date: string", "Date:\n            send: string\n            receive: Date")));
+    // TypeScript type texts of scalars are scanned for identifiers: non-ASCII text before, between and after them
+    for (k, t) in ["\"\u{65e5}\u{672c}\u{8a9e}\" | Date", "\"\u{e9}\" | A | \"\u{1F600}\u{1F600}\" | B\u{e9}C | D", "\u{65e5}\u{672c} | x", "Array<\"\u{e9}\u{e9}\u{e9}\">", "\"a\u{308}\" | Map<string, \"\u{1F468}\u{200D}\u{1F469}\">"].iter().enumerate() {
+        v.push(cf(&format!("scalarTypes with non-ASCII text {k}"), &CONFIG.replace("Date: string", &format!("Date: '{t}'"))));
+        v.push(cf(&format!("scalarTypes send/receive with non-ASCII text {k}"), &CONFIG.replace("Date: string", &format!("Date:\n            send: '{t}'\n            receive: 'Date | {t}'"))));
+        v.push(sc(&format!("nitrogql_ts_type with non-ASCII text {k}"), &format!("scalar Uni @nitrogql_ts_type(resolverInput: \"{0}\", resolverOutput: \"{0}\", operationInput: \"x | {0}\", operationOutput: \"{0} | y\")\nextend type Query {{ uni: Uni }}", t.replace('"', "'"))));
+    }
     v.push(cf("schema glob matching nothing", &CONFIG.replace("./schema/*.graphql", "./nowhere/*.graphql")));
     v.push(cf("JSON config text", "{\"schema\": \"./schema/*.graphql\", \"documents\": \"./ops/*.graphql\"}"));
     v.push(cf("tabs in YAML", "schema:\t./schema/*.graphql\n\tdocuments: x"));
